@@ -37,7 +37,7 @@ func SiteName(s int) string {
 }
 
 // StepBudget is the logical bound on hook steps within one API call.
-var StepBudget int64 = 200_000_000
+var StepBudget int64 = 3_000_000
 
 type stepOverrun struct{ site int }
 
@@ -55,6 +55,7 @@ func hook(site int) {
 	steps++
 	if site >= 0 && site < len(siteSeen) {
 		siteSeen[site] = true
+		sigSeen[site] = true
 	}
 	if steps > StepBudget {
 		panic(stepOverrun{site})
@@ -93,9 +94,22 @@ func SiteSeenCount() int {
 	return n
 }
 
-// SiteSignature returns the set of sites hit by the calls since the last
-// ResetSiteSignature, as a string usable as a coverage key.
+// per-signature site set: sites hit since the last ResetSig
 var sigSeen [256]bool
+
+// ResetSig starts a new site signature.
+func ResetSig() { sigSeen = [256]bool{} }
+
+// Sig returns the set of hook sites hit since ResetSig as a compact key.
+func Sig() string {
+	var b [32]byte
+	for i, v := range sigSeen {
+		if v {
+			b[i/8] |= 1 << (i % 8)
+		}
+	}
+	return string(b[:])
+}
 
 // Out describes how a monitored call ended.
 type Out struct {
@@ -130,11 +144,7 @@ func guard(o *Out) {
 		}
 		o.Panicked = true
 		o.PanicVal = fmt.Sprint(p)
-		st := string(debug.Stack())
-		if len(st) > 3000 {
-			st = st[:3000]
-		}
-		o.Stack = st
+		o.Stack = repoFrames(string(debug.Stack()))
 	}
 }
 
@@ -190,4 +200,16 @@ func Guarded(fn func()) (o Out) {
 	defer guard(&o)
 	fn()
 	return
+}
+
+// repoFrames keeps the stack frames that belong to the code under test.
+func repoFrames(st string) string {
+	lines := strings.Split(st, "\n")
+	var out []string
+	for i := 0; i+1 < len(lines) && len(out) < 16; i++ {
+		if strings.HasPrefix(lines[i], "github.com/runreveal/pql") {
+			out = append(out, "      "+lines[i], "      "+strings.TrimSpace(lines[i+1]))
+		}
+	}
+	return strings.Join(out, "\n")
 }
